@@ -221,6 +221,8 @@ func (e *SpecEnv) sortOfName(name string) (string, Kind, types.Type) {
 
 func (e *SpecEnv) eval(ex SExpr) Value {
 	x := e.x
+	x.specEval++
+	defer func() { x.specEval-- }()
 	switch n := ex.(type) {
 	case *SLit:
 		v, ok := new(big.Int).SetString(n.Val, 0)
@@ -529,7 +531,27 @@ func (e *SpecEnv) binary(n *SBin) Value {
 	case "||":
 		return boolV(mkOr(e.evalBool(n.X), e.evalBool(n.Y)))
 	case "==>":
-		return boolV(mkImp(e.evalBool(n.X), e.evalBool(n.Y)))
+		ant := e.evalBool(n.X)
+		if ant == tFalse {
+			return boolV(tTrue)
+		}
+		// the consequent may mention the dynamic value of an interface that is
+		// only known on the paths where the antecedent can hold; elsewhere it
+		// becomes an unconstrained proposition (weaker as assumption, not
+		// provable as goal unless the antecedent is refuted)
+		cons := func() (s string) {
+			defer func() {
+				if r := recover(); r != nil {
+					if se, ok := r.(*SpecError); ok && strings.Contains(se.Msg, "dynamic value") && x.underBinder == 0 {
+						s = x.d.fresh("undef", sBool)
+						return
+					}
+					panic(r)
+				}
+			}()
+			return e.evalBool(n.Y)
+		}()
+		return boolV(mkImp(ant, cons))
 	case "<==>":
 		return boolV(mkEq(e.evalBool(n.X), e.evalBool(n.Y)))
 	}
@@ -655,6 +677,9 @@ func (e *SpecEnv) specEq(a, b Value) string {
 	}
 	if a.K != b.K {
 		specFail("comparison of different kinds %d / %d", a.K, b.K)
+	}
+	if a.K == KOpaque && (strings.HasPrefix(a.S, "(seq ") || strings.HasPrefix(b.S, "(seq ")) {
+		x.needSeqExt() // equality of byte-sequence abstractions is extensional
 	}
 	if a.K == KSlice {
 		// identity of slices (same region window)
@@ -844,6 +869,16 @@ func (e *SpecEnv) call(n *SCall) Value {
 			v = *v.Dyn
 		}
 		return x.load(e.st, v, token.NoPos)
+	case "head", "tail":
+		// head(d, n) / tail(d, n): first n bytes / everything after the first n bytes of a byte sequence
+		d := e.eval(n.Args[0])
+		k := e.asInt(e.eval(n.Args[1]))
+		x.needSeqSlice()
+		f := "seqhead"
+		if name == "tail" {
+			f = "seqtail"
+		}
+		return Value{K: KOpaque, Sort: "Bytes", S: "(" + f + " " + d.S + " " + k + ")"}
 	case "dyn":
 		// dyn(x): the concrete value held by an interface (when statically known)
 		v := e.eval(n.Args[0])
